@@ -25,7 +25,7 @@ ASSUMPTIONS = [
     'the harness catches it and only requires that the target keeps a valid value and mirrors again once the value is valid',
     'sync watchers are recognised structurally (bound method _sync_refs whose owner namespace belongs to the target)',
 ]
-REQUIRED = {'overrides_right_after_a_failed_delivery': 20, 'mirror_checks': 8000, 'source_updates': 1800, 'overrides': 220, 'relinks': 300, 'nested_links': 200, 'leak_checks': 3000, 'triggers': 100,
+REQUIRED = {'skip_cases': 10, 'skip_mirror_checks': 60, 'overrides_right_after_a_failed_delivery': 20, 'mirror_checks': 8000, 'source_updates': 1800, 'overrides': 220, 'relinks': 300, 'nested_links': 200, 'leak_checks': 3000, 'triggers': 100,
             'same_reference_reassigned': 20, 'overrides_from_trigger_callback': 50, 'equal_comparing_source_cases': 40,
             'targets_sharing_parameter_objects': 40, 'assignments_from_on_init_method': 100, 'arraylike_source_values': 100, 'overrides_from_sync_callback': 40, 'falsy_source_cases': 30, 'source_side_observations': 1000, 'self_correcting_source_cases': 30}
 
@@ -228,8 +228,104 @@ def _flat(v):
     return out
 
 
+def skip_case(idx, rng, P, rep):
+    """A function reference that has nothing to say for some source values (it raises `param.Skip`, or returns it): the
+    linked parameter keeps what it holds and mirrors again from the next value on, whether the link was made in the
+    constructor or by assignment; a plain value ends the link for good."""
+    param = _st['param']
+    Src, Tgt = _st['Src'], _st['Tgt']
+    src = Src(v=fresh(), w=fresh())
+    form = rng.choice(['raises', 'returns'])
+    dec = rng.choice(['bind', 'depends'])
+    skipped = set()
+
+    def f(a):
+        if a in skipped:
+            if form == 'raises':
+                raise param.Skip
+            return param.Skip
+        return a * 2
+    ref = param.bind(f, src.param.v) if dec == 'bind' else param.depends(src.param.v)(f)
+    tp = rng.choice(['y', 'z'])
+    route = rng.choice(['ctor', 'assign', 'assign-after-plain'])
+    first_skipped = rng.random() < 0.6
+    if first_skipped:
+        skipped.add(src.v)
+    desc = dict(kind='skip', form=form, made_with=dec, route=route, parameter=tp, first_value_skipped=first_skipped)
+    trace = []
+
+    def viol(key, msg):
+        rep.violation(f'C08/{key}', msg, case=desc, trace=trace[-20:])
+    try:
+        if route == 'ctor':
+            t = Tgt(**{tp: ref})
+            expect = Tgt.param[tp].default if first_skipped else src.v * 2
+        else:
+            t = Tgt()
+            expect = Tgt.param[tp].default
+            if route == 'assign-after-plain':
+                expect = fresh()
+                setattr(t, tp, expect)
+            setattr(t, tp, ref)
+            if not first_skipped:
+                expect = src.v * 2
+    except Exception as e:   # noqa: BLE001
+        viol(f'skip/link-raised/{route.split("-")[0]}', f'linking a reference that {form} Skip raised {type(e).__name__}: {e}')
+        rep.case(('skip', form, dec, route, 'raised'), True)
+        return
+    rep.count('skip_cases')
+
+    def check(where):
+        rep.count('mirror_checks')
+        rep.count('skip_mirror_checks')
+        got = getattr(t, tp)
+        if got != expect or isinstance(got, type):
+            viol(f'skip/{"stored-as-value" if got is param.Skip else "wrong-value"}/{where}',
+                 f'{where} (reference made with {dec}, {form} Skip, linked by {route}): {tp} is {got!r}, expected {expect!r}')
+    check('link-' + route.split('-')[0])
+    live = True
+    for _ in range(rng.randint(3, 8)):
+        c = rng.random()
+        if c < 0.6:
+            v = fresh()
+            skip = rng.random() < 0.4
+            if skip:
+                skipped.add(v)
+            trace.append(('src.v', v, 'skipped' if skip else 'delivered'))
+            try:
+                src.v = v
+            except Exception as e:   # noqa: BLE001
+                viol('skip/source-update-raised', f'src.v = {v!r} raised {type(e).__name__}: {e}')
+                break
+            rep.count('source_updates')
+            if live and not skip:
+                expect = v * 2
+            check('delivery-skipped' if skip else 'delivery')
+        elif c < 0.75:
+            expect = fresh()
+            trace.append(('override', expect))
+            setattr(t, tp, expect)
+            live = False
+            rep.count('overrides')
+            check('override')
+        elif c < 0.9:
+            trace.append(('relink',))
+            setattr(t, tp, ref)
+            live = True
+            if src.v not in skipped:
+                expect = src.v * 2
+            rep.count('relinks')
+            check('link-assign')
+        else:
+            src.w = fresh()
+            check('unrelated-source-update')
+    rep.case(('skip', form, dec, route, first_skipped), True)
+
+
 def run_case(idx, rng, P, rep):
     param = _st['param']
+    if rng.random() < 0.04:
+        return skip_case(idx, rng, P, rep)
     Src, Tgt = _st['Src'], _st['Tgt']
     if rng.random() < 0.15:
         Src = _st['EqSrc']
